@@ -1,12 +1,12 @@
 package checks
 
 import (
-	"github.com/diskfs/go-diskfs/verifhook/vtime"
 	"bytes"
 	"crypto/sha256"
 	"encoding/json"
 	"errors"
 	"fmt"
+	"github.com/diskfs/go-diskfs/verifhook/vtime"
 	"io"
 	"os"
 	"path/filepath"
